@@ -377,6 +377,11 @@ func (ef *Filter) filterField(ctx context.Context, v reflect.Value, filterOverri
 			continue
 		}
 
+		// storeBack is set when the field is an interface which holds its value
+		// directly (not via a pointer). Such a value is not settable and would
+		// silently stay unfiltered, so a settable copy of it is filtered and
+		// then stored back in the field.
+		var storeBack reflect.Value
 		switch fkind {
 		case reflect.Ptr, reflect.Interface:
 			field = v.Field(i).Elem()
@@ -388,6 +393,10 @@ func (ef *Filter) filterField(ctx context.Context, v reflect.Value, filterOverri
 				if field == reflect.ValueOf(nil) {
 					continue
 				}
+			} else if fkind == reflect.Interface && !field.CanSet() && v.Field(i).CanSet() {
+				storeBack = reflect.New(field.Type()).Elem()
+				storeBack.Set(field)
+				field = storeBack
 			}
 			fkind = field.Kind() // re-init to the kind after deferencing the pointer or interface...
 		}
@@ -498,6 +507,9 @@ func (ef *Filter) filterField(ctx context.Context, v reflect.Value, filterOverri
 			if err := tm.trackMap(t); err != nil {
 				return fmt.Errorf("%s: %w", op, err)
 			}
+		}
+		if storeBack.IsValid() {
+			v.Field(i).Set(storeBack)
 		}
 	}
 	return nil
